@@ -16,6 +16,7 @@ import MtailVerif.Driver.VMSrv
 import MtailVerif.Driver.C20
 import MtailVerif.Driver.C24
 import MtailVerif.Driver.C23
+import MtailVerif.Driver.C03
 /-! `mtailmodel <prop>`: reads the case lines written by the Go harness on stdin and prints
     `<id> OBS <observation>` computed by the Lean model.  Core Lean only (links as an exe). -/
 open MtailVerif MtailVerif.Driver
@@ -38,6 +39,7 @@ def handlerFor (prop : String) : Option (List String → String) :=
   | "C20" => some C20.handle
   | "C24" => some C24.handle
   | "C23" => some C23.handle
+  | "C03" => some C03.handle
   | "C11" => some (fun f => match f with | [_, _, n, _] => s!"n={n}" | _ => "bad-case")
   | "C14" => some Rt.handle
   | "C06" => some Rt.handle
